@@ -124,7 +124,7 @@ func roundTrip(c *vm.Ctx, sub string, v reflect.Value, network bool, byPtr bool,
 		via = "Encoder.Encode / Decoder.Decode from a plain io.Reader returning 1,2,3,7,... bytes per read"
 	}
 	wit := func() any {
-		return map[string]any{"go_type": short(t.String()), "go_value": valStr, "network": network, "by_pointer": byPtr, "root_name": name, "via": via}
+		return map[string]any{"go_type": short(t.String()), "go_value": valStr, "network": network, "by_pointer": byPtr, "root_name": short(name), "root_name_len": len(name), "via": via}
 	}
 	unsup := ""
 	if sub == "gen" {
@@ -190,7 +190,16 @@ func roundTrip(c *vm.Ctx, sub string, v reflect.Value, network bool, byPtr bool,
 		return
 	}
 	if !network && gotName != name {
-		c.Violation(sub+"/root-name", fmt.Sprintf("root name %q came back as %q", name, gotName), w2())
+		c.Violation(sub+"/root-name", fmt.Sprintf("root name %q (%d bytes) came back as %q (%d bytes)", short(name), len(name), short(gotName), len(gotName)), w2())
+		return
+	}
+	switch {
+	case len(name) >= 32767:
+		c.Cover("root-name.32767-bytes")
+	case len(name) >= 256:
+		c.Cover("root-name.256-bytes-or-more")
+	case len(name) >= 128:
+		c.Cover("root-name.128-to-255-bytes")
 	}
 	if d := gotypes.EqualGo(v, out.Elem()); d != "" {
 		c.Violation(sub+"/roundtrip-mismatch/"+culprit(t, diffPath(d)), "Unmarshal(Marshal(v)) != v: "+d, w2())
@@ -969,6 +978,9 @@ func roundTripQuiet(c *vm.Ctx, sub string, v reflect.Value, network, byPtr bool,
 }
 
 func run(c *vm.Ctx) {
+	if devSelected(c) {
+		return
+	}
 	if c.Shard == 0 {
 		checkNameConflicts(c, c.Rand("conflicts"))
 		checkBigValues(c, c.Rand("big"))
@@ -976,6 +988,28 @@ func run(c *vm.Ctx) {
 	if c.Shard == 1%c.NShards {
 		checkBigCarriers(c, c.Rand("big-carriers"))
 	}
+	genLoop(c)
+	rest(c)
+	if c.Shard == 2%c.NShards {
+		additions["long-lists"](c)
+	}
+	if c.Shard == 3%c.NShards {
+		additions["arrays"](c)
+		additions["diamond"](c)
+	}
+	if c.Shard == 4%c.NShards {
+		additions["deep"](c)
+	}
+	if c.Shard == 5%c.NShards {
+		additions["highest-count-byte"](c)
+	}
+	for _, name := range []string{"positions2", "streams", "together", "spare", "reuse-lists", "snbt-reuse"} {
+		additions[name](c)
+	}
+}
+
+// genLoop: the generated type universe.
+func genLoop(c *vm.Ctx) {
 	r := c.Rand("types")
 	tg := gotypes.New(r)
 	nTypes := c.Scale(3000, 40000)
@@ -1002,6 +1036,9 @@ func run(c *vm.Ctx) {
 			name := ""
 			if !network && r.Bool() {
 				name = "n" + strconv.Itoa(r.Intn(1000))
+				if r.Intn(4) == 0 {
+					name = rootNames[r.Intn(len(rootNames))] // the root name is a length-prefixed field like any other
+				}
 			}
 			roundTrip(c, "gen", v, network, r.Bool(), name, tg.Features)
 			if i < 3 && j == 0 {
@@ -1009,6 +1046,9 @@ func run(c *vm.Ctx) {
 			}
 		}
 	}
+}
+
+func rest(c *vm.Ctx) {
 	// static zoo
 	zr := c.Rand("zoo")
 	for i := 0; i < c.Scale(4000, 100000); i++ {
@@ -1082,15 +1122,35 @@ func run(c *vm.Ctx) {
 	scfg := cfg
 	scfg.FiniteOnly = true
 	sg := nbtgen.New(sr, scfg)
+	// every 16th text-carried document may hold strings and member names of 255..32767 bytes and arrays of up to 400 elements
+	slcfg := scfg
+	slcfg.LongString, slcfg.MaxArray = true, 400
+	slg := nbtgen.New(sr, slcfg)
 	for i := 0; i < c.Scale(2000, 40000); i++ {
+		if i%16 == 15 {
+			checkStringified(c, sr, slg)
+			continue
+		}
 		checkStringified(c, sr, sg)
 	}
 	sp := c.Rand("snbt-positions")
 	spg := nbtgen.New(sp, scfg)
+	splg := nbtgen.New(sp, slcfg)
 	for i := 0; i < c.Scale(2000, 40000); i++ {
+		if i%16 == 15 {
+			if checkStringifiedPositions(c, sp, splg) == 4 {
+				c.Cover("snbt.documents-with-long-names-and-strings")
+			}
+			continue
+		}
 		checkStringifiedPositions(c, sp, spg)
 	}
 }
+
+// rootNames: lengths on both sides of the high byte of the 16-bit prefix, the longest name the decoder reads, arbitrary
+// bytes, and names that look like the start of a document.
+var rootNames = []string{"a", strings.Repeat("n", 127), strings.Repeat("n", 128), strings.Repeat("k", 255), strings.Repeat("k", 256), strings.Repeat("k", 257), strings.Repeat("q", 300),
+	strings.Repeat("w", 4096), strings.Repeat("m", 32767), "h\xc3\xa9llo \xe6\x97\xa5", "\x00", "\x0a\x00\x00\x00", "\xff\xfe\x80", "root name", strings.Repeat("\x00\x01", 200)}
 
 // forcedTypes: every scalar kind, slices and arrays of every scalar kind, maps, deterministically first.
 var forcedTypes = func() []reflect.Type {
